@@ -78,9 +78,9 @@ static ssize_t take_event(qb_ipcc_connection_t *c, unsigned char *rbuf, size_t m
 }
 /* wait for a response, but keep consuming events meanwhile (the server queues the answer to an event
  * request behind the events, and the event channel is only as big as one maximal message) */
-static ssize_t wait_response(qb_ipcc_connection_t *c, unsigned char *rbuf, unsigned char *ebuf, size_t maxsz, struct evstate *es, int fd)
+static ssize_t wait_response(qb_ipcc_connection_t *c, unsigned char *rbuf, unsigned char *ebuf, size_t maxsz, struct evstate *es, int fd, int rounds)
 {
-	for (int i = 0; i < 400; i++) {
+	for (int i = 0; i < rounds; i++) {
 		ssize_t rr = qb_ipcc_recv(c, rbuf, maxsz, 15);
 		if (rr != -EAGAIN && rr != -ETIMEDOUT) return rr;
 		for (int k = 0; k < 64 && !es->dead; k++) if (take_event(c, ebuf, maxsz, 0, es, fd, 0, "while-waiting") < (ssize_t)TP_RES_MIN) break;
@@ -151,11 +151,11 @@ static void client_c02(const struct cl_cfg *cc, const char *dir)
 			expect_resp[nexp++ & 4095] = q->seq;
 			if (how == 2 || vp_chance(&r, 2, 3) || nexp - hexp > 20) {
 				while (hexp < nexp) {
-					ssize_t rr = wait_response(c, rbuf, ebuf, maxsz, &es, fd);
+					ssize_t rr = wait_response(c, rbuf, ebuf, maxsz, &es, fd, 200);
 					struct tp_res *s = (struct tp_res *)rbuf; int ok = -1;
 					if (rr >= (ssize_t)TP_RES_MIN) ok = s->plen + TP_RES_MIN == (size_t)rr && tp_cksum(s->payload, s->plen) == s->cksum && s->hdr.size == rr;
-					bed_log(L_C_RECV, 0, rr >= (ssize_t)TP_RES_MIN ? s->seq : 0, rr, ok, expect_resp[hexp & 4095], NULL);
-					if (rr < 0) { if (rr != -EAGAIN && rr != -ETIMEDOUT) dead = 1; break; }
+					if (rr >= 0 || (rr != -EAGAIN && rr != -ETIMEDOUT)) bed_log(L_C_RECV, 0, rr >= (ssize_t)TP_RES_MIN ? s->seq : 0, rr, ok, expect_resp[hexp & 4095], NULL);
+					if (rr < 0) { if (rr != -EAGAIN && rr != -ETIMEDOUT) dead = 1; break; }   /* a time-out is no verdict: the answer stays owed */
 					if (rr >= (ssize_t)TP_RES_MIN && s->arg2 && q->op == OP_EVENTS && s->seq == q->seq) { ev_acked_total += s->arg1; /* some were consumed while waiting */ es.known_pending = (long)s->arg2 - (long)es.next; if (es.known_pending < 0) es.known_pending = 0; }
 					hexp++;
 				}
@@ -164,13 +164,16 @@ static void client_c02(const struct cl_cfg *cc, const char *dir)
 	}
 	/* drain what is still owed */
 	while (!dead && hexp < nexp) {
-		ssize_t rr = wait_response(c, rbuf, ebuf, maxsz, &es, fd); struct tp_res *s = (struct tp_res *)rbuf; int ok = -1;
+		ssize_t rr = wait_response(c, rbuf, ebuf, maxsz, &es, fd, 4000); struct tp_res *s = (struct tp_res *)rbuf; int ok = -1;   /* a minute: generous watchdog, not a deadline */
 		if (rr >= (ssize_t)TP_RES_MIN) ok = s->plen + TP_RES_MIN == (size_t)rr && tp_cksum(s->payload, s->plen) == s->cksum;
-		bed_log(L_C_RECV, 0, rr >= (ssize_t)TP_RES_MIN ? s->seq : 0, rr, ok, expect_resp[hexp & 4095], "drain");
+		bed_log(L_C_RECV, 0, rr >= (ssize_t)TP_RES_MIN ? s->seq : 0, rr, ok, expect_resp[hexp & 4095], "final");
 		if (rr < 0) break;
 		hexp++;
 	}
-	for (int i = 0; !dead && !es.dead && i < 100000; i++) if (take_event(c, rbuf, maxsz, 300, &es, fd, 0, "drain") < (ssize_t)TP_RES_MIN) break;
+	/* the answers to the event requests told us how many events the server got accepted: wait for all of them
+	 * (generous watchdog: a time-out alone is no verdict), then look once more for anything unannounced */
+	for (int idle = 0; !dead && !es.dead && (long)es.next < ev_acked_total && idle < 200; ) { if (take_event(c, rbuf, maxsz, 300, &es, fd, 0, "drain") < (ssize_t)TP_RES_MIN) idle++; else idle = 0; }
+	for (int i = 0; !dead && !es.dead && i < 100000; i++) if (take_event(c, rbuf, maxsz, 100, &es, fd, 0, "drain") < (ssize_t)TP_RES_MIN) break;
 	if (es.dead) dead = 1;
 	bed_log(L_C_DISCONNECT, 0, dead, 0, 0, 0, NULL);
 	qb_ipcc_disconnect(c);
@@ -245,7 +248,7 @@ static void case_c02(long kase)
 			n_resp_checked++;
 			if (C[k].a != C[k].d) { vp_violation("ipc:responses-reordered-lost-or-duplicated", "client %d expected response seq %llx got %llx [%s]", i + 1, (long long)C[k].d, (long long)C[k].a, vp.cur_desc); break; }
 			if (C[k].c != 1) vp_violation("ipc:response-bytes-differ", "seq %llx", (long long)C[k].a);
-		} else if (C[k].kind == L_C_RECV && C[k].b < 0 && !dead && C[k].b != -ENOTCONN && C[k].b != -ECONNRESET) {
+		} else if (C[k].kind == L_C_RECV && C[k].b < 0 && !dead && C[k].b != -ENOTCONN && C[k].b != -ECONNRESET && strcmp(C[k].text, "final") == 0) {
 			vp_violation("ipc:response-never-arrived", "client %d: recv for seq %llx returned %lld although the request was accepted and the server is alive [%s]", i + 1, (long long)C[k].d, (long long)C[k].b, vp.cur_desc);
 		}
 		/* events: accepted by the server == received by the client, in order */
